@@ -4,9 +4,12 @@
    find_status_in_source_chain in tonic/src/status.rs).
 
    State fields and branch order are those of the Rust source.  What is NOT tonic is a parameter of
-   the section: hyper's SendRequest (poll_ready / send_request) and the connector's poll_ready.
-   Their assumed behaviour is stated as hypotheses in Proofs/Reconnect.v and instantiated with
-   [real_*] below for evaluation.  The tower Buffer worker contract (a request is served by polling
+   the section: hyper's SendRequest (poll_ready / send_request).  Its assumed behaviour is stated
+   as hypotheses in Proofs/Reconnect.v and instantiated with [real_*] below for evaluation.  The
+   connector (a tower Service<Uri>) is part of the environment [world]: its poll_ready answers
+   Pending [w_prl] times per cycle and then Ready, and it ENFORCES the tower Service protocol - a
+   `call` that is not preceded by a Ready poll_ready since the previous `call` is a contract
+   violation (tower::limit::ConcurrencyLimit and friends panic there).  The tower Buffer worker contract (a request is served by polling
    poll_ready until it is Ready, then call exactly once; a Pending service wakes its task) and the
    scripted connect future (resolves after [lat] Pending polls with the answer the environment had
    when the connector was invoked) are explicit in [serve] and [make_service]. *)
@@ -56,9 +59,14 @@ Inductive step :=
                                     serves them in order; then everything runs to completion *)
 Notation Call := (Calls 1).      (* one call issued on the channel, run to completion *)
 
-(* the world the connector lives in: reachability, the connector's latency in Pending polls, and
-   the number of times the connector has been invoked *)
-Record world := mkWorld { w_net : reach; w_lat : nat; w_attempts : N }.
+(* the world the connector lives in: reachability, the connector's latency in Pending polls, the
+   number of times the connector has been invoked (`call`ed), and the connector's readiness
+   protocol: [w_ready] = poll_ready has returned Ready since the last call (ghost flag of a strict
+   connector), [w_pr_left] = Pending answers poll_ready still gives in this cycle, [w_prl] = the
+   number it is reset to after every call *)
+Record world := mkWorld { w_net : reach; w_lat : nat; w_attempts : N;
+                          w_ready : bool; w_pr_left : nat; w_prl : nat }.
+Definition init_world (net : reach) (lat prl : nat) : world := mkWorld net lat 0 false prl prl.
 
 (* hyper connection as seen through SendRequest *)
 Inductive conn :=
@@ -94,23 +102,34 @@ Definition note_i2c rc := mkRc (rc_state rc) (rc_error rc) (rc_hbc rc) (rc_lazy 
 (* Reconnect::new *)
 Definition new_reconnect (is_lazy : bool) : reconnect := mkRc Idle None false is_lazy 0.
 
+(* MakeSendRequestService::poll_ready -> Connector::poll_ready -> the user's connector *)
+Definition mk_poll_ready (w : world) : world * poll (result unit cerr) :=
+  match w_pr_left w with
+  | S p => (mkWorld (w_net w) (w_lat w) (w_attempts w) (w_ready w) p (w_prl w), Pending)
+  | O => (mkWorld (w_net w) (w_lat w) (w_attempts w) true O (w_prl w), Ready (Ok tt))
+  end.
+
 (* MakeSendRequestService::call -> Connector::call -> the user's connector: counts the invocation
-   and snapshots the environment's answer *)
-Definition make_service (w : world) : world * cfut :=
-  let k := w_attempts w + 1 in
-  (mkWorld (w_net w) (w_lat w) k,
-   Fut (w_lat w) (match w_net w with
-                  | Up => Ok Alive
-                  | Down r => Err (mkErr k r Refused)
-                  | UpDead => Err (mkErr k 0 Handshake)
-                  | UpGarbage => Ok Severed
-                  end)).
+   and snapshots the environment's answer.  None: called without a Ready poll_ready since the
+   last call - the tower Service contract is broken (a strict connector panics) *)
+Definition make_service (w : world) : option (world * cfut) :=
+  if w_ready w then
+    let k := w_attempts w + 1 in
+    Some (mkWorld (w_net w) (w_lat w) k false (w_prl w) (w_prl w),
+          Fut (w_lat w) (match w_net w with
+                         | Up => Ok Alive
+                         | Down r => Err (mkErr k r Refused)
+                         | UpDead => Err (mkErr k 0 Handshake)
+                         | UpGarbage => Ok Severed
+                         end))
+  else None.
 
 Inductive pr :=                    (* result of one Reconnect::poll_ready *)
 | PrPending
 | PrReadyOk
 | PrReadyErr (e : cerr)
 | PrPanic                          (* a completed connect future was polled again *)
+| PrMisuse                         (* the connector was called without having been polled ready *)
 | PrSpin.                          (* the `loop` did not return within the fuel *)
 
 Inductive send_result := SrResponse | SrCanceled.
@@ -120,8 +139,6 @@ Section Stack.
   Variable conn_poll_ready : conn -> poll (result unit unit).
   (* SendRequest::send_request(..).await on a connection in the given condition *)
   Variable send_request : conn -> send_result.
-  (* Connector::poll_ready -> the user's connector's poll_ready *)
-  Variable mk_poll_ready : poll (result unit cerr).
 
   (* the `loop` of Reconnect::poll_ready; one unit of fuel per iteration *)
   Fixpoint pr_loop (fuel : nat) (rc : reconnect) (w : world) {struct fuel} : reconnect * world * pr :=
@@ -130,13 +147,16 @@ Section Stack.
     | S fuel' =>
       match rc_state rc with
       | Idle =>
-          match mk_poll_ready with
-          | Ready (Ok _) =>
-              let '(w', fut) := make_service w in
-              (* self.state = State::Connecting(fut); continue *)
-              pr_loop fuel' (note_i2c (set_state rc (Connecting fut))) w'
-          | Ready (Err e) => (rc, w, PrReadyErr e)          (* r? *)
-          | Pending => (rc, w, PrPending)
+          match mk_poll_ready w with
+          | (w1, Ready (Ok _)) =>
+              match make_service w1 with
+              | Some (w', fut) =>
+                  (* self.state = State::Connecting(fut); continue *)
+                  pr_loop fuel' (note_i2c (set_state rc (Connecting fut))) w'
+              | None => (rc, w1, PrMisuse)
+              end
+          | (w1, Ready (Err e)) => (rc, w1, PrReadyErr e)          (* r? *)
+          | (w1, Pending) => (rc, w1, PrPending)
           end
       | Connecting f =>
           match poll_fut f with
@@ -193,6 +213,7 @@ Section Stack.
                                       Buffer::poll_ready; generated clients report
                                       Status::unknown("Service was not ready: ..") *)
   | Panic
+  | ConnectorMisuse                (* the connector's `call` without a Ready poll_ready (it panics) *)
   | OutOfFuel.                     (* hang *)
 
   (* reaching a quiescent point: the client's connection task has run, a dead connection is closed *)
@@ -220,13 +241,14 @@ Section Stack.
             end
         | (rc, w', PrReadyErr e) => (mkChan rc (Some e), w', ServiceFailed e)   (* Worker::failed *)
         | (rc, w', PrPanic) => (mkChan rc None, w', Panic)
+        | (rc, w', PrMisuse) => (mkChan rc None, w', ConnectorMisuse)
         | (rc, w', PrSpin) => (mkChan rc None, w', OutOfFuel)
         end
       end
     end.
 
   (* ------------------------------------------------------------ building the channel *)
-  Inductive ready_out := RoOk | RoErr (e : cerr) | RoPanic | RoHang.
+  Inductive ready_out := RoOk | RoErr (e : cerr) | RoPanic | RoMisuse | RoHang.
   (* ServiceExt::ready_oneshot on the fresh Connection (Connection::connect) *)
   Fixpoint ready_oneshot (fuel : nat) (rc : reconnect) (w : world) {struct fuel} : reconnect * world * ready_out :=
     match fuel with
@@ -237,6 +259,7 @@ Section Stack.
       | (rc', w', PrReadyOk) => (rc', w', RoOk)
       | (rc', w', PrReadyErr e) => (rc', w', RoErr e)
       | (rc', w', PrPanic) => (rc', w', RoPanic)
+      | (rc', w', PrMisuse) => (rc', w', RoMisuse)
       | (rc', w', PrSpin) => (rc', w', RoHang)
       end
     end.
@@ -250,7 +273,8 @@ Section Stack.
          end.
 
   (* ------------------------------------------------------------ histories *)
-  Definition set_net (w : world) (n : reach) : world := mkWorld n (w_lat w) (w_attempts w).
+  Definition set_net (w : world) (n : reach) : world :=
+    mkWorld n (w_lat w) (w_attempts w) (w_ready w) (w_pr_left w) (w_prl w).
   Definition drop_conn (to : conn) (ch : chan) : chan :=
     match rc_state (ch_rc ch) with
     | Connected Alive => mkChan (set_state (ch_rc ch) (Connected to)) (ch_failed ch)
@@ -301,8 +325,8 @@ Section Stack.
     r_i2c : option N                 (* ghost counter of the surviving Reconnect *)
   }.
 
-  Definition run_with (fuel : nat) (is_lazy : bool) (lat : nat) (net0 : reach) (h : list step) : run_result :=
-    match build is_lazy fuel (mkWorld net0 lat 0) with
+  Definition run_with (fuel : nat) (is_lazy : bool) (lat prl : nat) (net0 : reach) (h : list step) : run_result :=
+    match build is_lazy fuel (init_world net0 lat prl) with
     | (None, w, eo) => mkRun eo [] (w_attempts w) None
     | (Some ch, w, eo) =>
         let '(rs, ch', w') := run_steps fuel h ch w in
@@ -311,7 +335,7 @@ Section Stack.
 End Stack.
 
 (* fuel that is always enough (Proofs/Reconnect.v: no OutOfFuel / RoHang / PrSpin above it) *)
-Definition fuel_for (lat : nat) : nat := lat + 4.
+Definition fuel_for (lat prl : nat) : nat := lat + prl + 4.
 
 (* ---------------------------------------------------------------- the assumed stack, concretely *)
 (* hyper 1.x http2::SendRequest::poll_ready: Ready(Err(closed)) iff is_closed(), never Pending *)
@@ -321,11 +345,9 @@ Definition real_conn_poll_ready (c : conn) : poll (result unit unit) :=
    with Error::new_canceled *)
 Definition real_send_request (c : conn) : send_result :=
   match c with Alive => SrResponse | _ => SrCanceled end.
-(* connectors are always ready (the scripted one, hyper_util's HttpConnector) *)
-Definition real_mk_poll_ready : poll (result unit cerr) := Ready (Ok tt).
 
-Definition run (is_lazy : bool) (lat : nat) (net0 : reach) (h : list step) : run_result :=
-  run_with real_conn_poll_ready real_send_request real_mk_poll_ready (fuel_for lat) is_lazy lat net0 h.
+Definition run (is_lazy : bool) (lat prl : nat) (net0 : reach) (h : list step) : run_result :=
+  run_with real_conn_poll_ready real_send_request (fuel_for lat prl) is_lazy lat prl net0 h.
 
 (* ---------------------------------------------------------------- error -> Status (status.rs) *)
 (* the links of an error's source() chain that Status::from_error distinguishes *)
@@ -405,23 +427,28 @@ Definition ready_tr (o : ready_out) : tr :=
   | RoOk => tag 0 []
   | RoErr e => err_tr (code_from_error (chain_of_err e)) e
   | RoHang => tag 2 []
-  | RoPanic => tag 3 []
+  | RoPanic | RoMisuse => tag 3 []
   end.
+(* how often the connector was `call`ed without a Ready poll_ready since its previous call *)
+Definition misuses (r : run_result) : N :=
+  (match r_eager r with Some RoMisuse => 1 | _ => 0 end) +
+  N.of_nat (length (filter (fun c : call_rec =>
+                              match snd (fst c) with ConnectorMisuse => true | _ => false end) (r_calls r))).
 Definition result_tr (r : run_result) : tr :=
   Nd [oopt ready_tr (r_eager r);
       olist (fun c : call_rec => outcome_tr (snd (fst c))) (r_calls r);
-      Nn (r_attempts r)].
+      Nn (r_attempts r);
+      Nn (misuses r)].
 
-Definition obs_run (is_lazy : bool) (lat : N) (net0 : reach) (h : list step) : tr :=
-  result_tr (run is_lazy (N.to_nat lat) net0 h).
+Definition obs_run (is_lazy : bool) (lat prl : N) (net0 : reach) (h : list step) : tr :=
+  result_tr (run is_lazy (N.to_nat lat) (N.to_nat prl) net0 h).
 
 (* ---------------------------------------------------------------- assumed contracts, as a predicate *)
-(* What the theorems assume about the parameters of [Section Stack] (hyper, the connector).  The
+(* What the theorems assume about the parameters of [Section Stack] (hyper).  The
    [real_*] instance above satisfies it (Props/C14.v), and it is the instance the correspondence run
    evaluates against the implementation. *)
 Record stack_contract (conn_poll_ready : conn -> poll (result unit unit))
-                      (send_request : conn -> send_result)
-                      (mk_poll_ready : poll (result unit cerr)) : Prop := {
+                      (send_request : conn -> send_result) : Prop := {
   (* hyper http2 SendRequest::poll_ready never returns Pending; it fails iff the connection task
      has finished (is_closed) *)
   sc_ready_alive : conn_poll_ready Alive = Ready (Ok tt);
@@ -431,9 +458,7 @@ Record stack_contract (conn_poll_ready : conn -> poll (result unit unit))
      fails it as canceled *)
   sc_send_alive : send_request Alive = SrResponse;
   sc_send_severed : send_request Severed = SrCanceled;
-  sc_send_closed : send_request Closed = SrCanceled;
-  (* the connector is always ready *)
-  sc_mk_ready : mk_poll_ready = Ready (Ok tt)
+  sc_send_closed : send_request Closed = SrCanceled
 }.
 
 (* pure environment bookkeeping used by the statements *)
@@ -474,7 +499,7 @@ Definition err_ids (rs : list call_rec) : list N :=
 
 (* ---------------------------------------------------------------- statement vocabulary *)
 (* the drivers are given at least this much fuel (iterations of `loop`, re-polls after Pending) *)
-Definition enough_fuel (lat fuel : nat) : Prop := (lat + 4 <= fuel)%nat.
+Definition enough_fuel (lat prl fuel : nat) : Prop := (lat + prl + 4 <= fuel)%nat.
 (* a channel object exists: lazy channels always, eager ones iff the first connect future succeeds
    (with UpGarbage it does: hyper's client handshake only writes) *)
 Definition built (is_lazy : bool) (net0 : reach) : Prop :=
